@@ -78,6 +78,8 @@ func (p *Printer) ref(t *Term) string {
 			e = fmt.Sprintf("(fp.roundToIntegral RTZ %s)", as[0])
 		case "fp.rne":
 			e = fmt.Sprintf("(fp.roundToIntegral RNE %s)", as[0])
+		case "fp.rna":
+			e = fmt.Sprintf("(fp.roundToIntegral RNA %s)", as[0])
 		case "fp.isInf":
 			e = fmt.Sprintf("(fp.isInfinite %s)", as[0])
 		case "fp.from_s":
